@@ -22,12 +22,13 @@ pl = os.path.join(here, "tools", "planned.json")
 if os.path.exists(pl):
     PLANNED = json.load(open(pl))
 
+CLAIMED = {l.strip() for l in open(os.path.join(here, "tools", "claimed.txt")) if l.strip() and not l.startswith("#")}
 checks, na = [], []
 for p in props:
     pid = p["id"]
     path = os.path.join(here, "harness", "props", pid.lower() + ".py")
     meta = None
-    if os.path.exists(path):
+    if os.path.exists(path) and pid in CLAIMED:
         mod = importlib.import_module("harness.props." + pid.lower())
         meta = getattr(mod, "MANIFEST", None)
     if meta is None:
